@@ -562,10 +562,46 @@ impl Monitor for MetaMonitor {
         if let Step::Api(op @ (Op::SetState(..) | Op::SetCreated(..) | Op::SetModified(..) | Op::SetClsid(..))) = step {
             if self.expect_ok && self.rng.chance(1, 12) {
                 let k = self.rng.below(30);
+                // variant B (storages and the root): what fails is a setter of a *different*
+                // field of the same object, and it is not repeated; whatever the object shows
+                // afterwards (the old or the new value - the call failed) is adopted, and the
+                // step's own successful setter must then leave live object and file in agreement
+                let path = match op {
+                    Op::SetState(p, _) | Op::SetCreated(p, _) | Op::SetModified(p, _) | Op::SetClsid(p, _) => p.clone(),
+                    _ => String::new(),
+                };
+                let names = model::normalise(&path).unwrap_or_default();
+                let is_stream = sess.model.get(&names).map(|n| n.kind == Kind::Stream).unwrap_or(true);
+                let other: Option<Op> = if !is_stream && self.rng.chance(1, 2) {
+                    let mut c = [0u8; 16];
+                    for b in c.iter_mut() {
+                        *b = self.rng.next_u32() as u8;
+                    }
+                    let cands = [Op::SetState(path.clone(), self.rng.next_u32() | 1), Op::SetCreated(path.clone(), gen::pick_time_ns(&mut self.rng)), Op::SetModified(path.clone(), gen::pick_time_ns(&mut self.rng)), Op::SetClsid(path.clone(), c)];
+                    let same = |a: &Op, b: &Op| std::mem::discriminant(a) == std::mem::discriminant(b);
+                    let pool: Vec<Op> = cands.into_iter().filter(|c| !same(c, op)).collect();
+                    Some(pool[self.rng.usize_below(pool.len())].clone())
+                } else {
+                    None
+                };
                 sess.shared.arm(vec![crate::backend::Fault { kinds: crate::backend::K_WRITE | crate::backend::K_SEEK, k, err: std::io::ErrorKind::Other, sticky: false, partial: false }]);
-                let r = engine::exec_api_on(sess.cf(), op);
+                let r = engine::exec_api_on(sess.cf(), other.as_ref().unwrap_or(op));
                 sess.shared.disarm();
-                rep.count(if r.is_err() { "setter_first_attempt_failed" } else { "setter_first_attempt_not_reached_by_the_fault" });
+                if other.is_some() {
+                    // adopt what the live object shows now
+                    if let Ok(e) = sess.cf().entry(&path) {
+                        let v = engine::view_of(&e);
+                        if let Some(n) = sess.model.get_mut(&names) {
+                            n.state = v.state;
+                            n.clsid = v.clsid;
+                            n.ctime = v.ctime;
+                            n.mtime = v.mtime;
+                        }
+                    }
+                    rep.count(if r.is_err() { "other_setter_failed_and_not_repeated" } else { "other_setter_not_reached_by_the_fault" });
+                } else {
+                    rep.count(if r.is_err() { "setter_first_attempt_failed" } else { "setter_first_attempt_not_reached_by_the_fault" });
+                }
             }
         }
     }
